@@ -84,6 +84,7 @@ type published struct {
 
 func CheckC17(run *evid.Run) {
 	total := pick(run.Tier, 400, 4000)
+	enableNoise(run.Seed)
 	run.Rule = "seeded histories of appends (a third of them PINNED; the harness pin service accepts any identifier), merges, manifest publications, denied appends, refused merges, forks and injected write failures (the k-th Add fails) on replicas sharing one store, under the default, link-encrypting and legacy codecs. (a) online assertion inside the store's Add, under the store's own mutex: every entry block decoded with the codec/key in use must find all its predecessors and references already stored, every manifest its heads; (b) crash-point enumeration: every returned manifest hash / appended entry hash / JSON head list / head-entry list is reloaded from the store prefix at the moment it was returned and from EVERY later prefix (each prefix = a crash between two block writes) and must reproduce the entry set, heads and values recorded at that moment; (c) an operation whose write failed must return an error and leave the log unchanged. Non-trivial history = >=2 replicas wrote, a merge happened and >=1 publication; distinct = shape digest + codec; crash points and reloads are counted"
 	run.Assumptions = []string{"a crash is modelled as losing every block write after a prefix of the Add sequence; block writes themselves are atomic", "reload clauses run under the default and link-encrypting codecs; the legacy codec cannot read back what it writes for v2 entries (decode-only for v0 blocks), so only the closure assertion runs there"}
 	parallel(total, func(i int) { c17Case(run, i) })
@@ -92,7 +93,7 @@ func CheckC17(run *evid.Run) {
 func c17Case(run *evid.Run, i int) {
 	rng := rand.New(rand.NewSource(run.Seed*1000003 + int64(i)*8675309))
 	codec := []string{"cbor", "cbor", "link", "pb"}[i%4]
-	h := hx.Gen(run.Seed, i, hx.GenOpts{MaxSteps: pick(run.Tier, 30, 50), Orders: []string{"hash", "default"}, Codecs: []string{codec}, MaxReplicas: 4, Failures: i%2 == 0})
+	h := hx.Gen(run.Seed, i, hx.GenOpts{MaxSteps: pick(run.Tier, 30, 50), Orders: []string{"hash", "default"}, Codecs: []string{codec}, MaxReplicas: 4, Failures: i%2 == 0, Bursts: i%3 == 2})
 	for k := range h.Steps {
 		if h.Steps[k].Op == "append" && rng.Intn(3) == 0 {
 			h.Steps[k].PC = 16
@@ -218,6 +219,14 @@ func c17Case(run *evid.Run, i int) {
 			pubs = append(pubs, &published{Prefix: st.NBlocks(), Kind: "entry-hash", Hash: res.Entry.GetHash(), State: o, Where: where, Ident: x.Writer[s.R]})
 			if rng.Intn(3) == 0 {
 				record(s.R, where+" +publish")
+			}
+		case "burst":
+			run.Count("concurrent_bursts", 1)
+			// concurrent appends and overlapping merges into one replica: whatever is published afterwards
+			// must load to what the replica holds
+			record(s.R, where+" +publish")
+			if e, err := l.Append(x.W.Ctx, []byte(s.Payload+"-after-burst"), nil); err == nil {
+				pubs = append(pubs, &published{Prefix: st.NBlocks(), Kind: "entry-hash", Hash: e.GetHash(), State: hx.Observe(l), Where: where + " +append", Ident: x.Writer[s.R]})
 			}
 		case "join", "joinempty", "joinself", "joinforeign", "fork":
 			if res.Err == nil && s.Op == "join" {
